@@ -120,3 +120,88 @@ Print Assumptions C13_export_import.
 Example C13_example :
   value_at_rank (hist_of 1 1000 1 [500; 3; 3; 999; 17]) 3 = highest_equiv (config_of 1 1000 1) 17.
 Proof. vm_compute. reflexivity. Qed.
+
+(* ---- oracle = theorem: the executable oracles of Model/HdrQuantOk.v, which the
+   correspondence check evaluates on the implementation's observations, accept the
+   model's own observation for every input of the domain (proofs in
+   Proofs/HdrOracleProofs.v).  Names of Model/HdrQuantOk.v are written qualified. ---- *)
+From FV.Model Require HdrQuantOk.
+From FV.Proofs Require HdrOracleProofs.
+
+(* 8. the driver's domain check c13_valid is the reflected hypothesis of the theorems *)
+Theorem C13_oracle_domain : forall lo hi s vs,
+  HdrQuantOk.c13_valid lo hi s vs = true <-> valid_config lo hi s /\ in_range hi vs.
+Proof. exact HdrOracleProofs.c13_valid_iff. Qed.
+Print Assumptions C13_oracle_domain.
+
+(* 9. quantiles: for every list of ranks 1..n the (rank, value) pairs of the model
+      satisfy c13_ok_quant (reflected form of theorems 1 and 2; the sorted reference
+      of the oracle, isort, is a sorted permutation).  Not covered: c13_ok_ranks, which
+      compares the rank the Go float expression produced with the exact rank — the
+      model takes the rank as an input and has no float step. *)
+Theorem C13_oracle_quant_sound : forall lo hi s vs ranks,
+  valid_config lo hi s -> in_range hi vs ->
+  Forall (fun k => 1 <= k <= Z.of_nat (length vs)) ranks ->
+  HdrQuantOk.c13_ok_quant lo hi s vs
+    (combine ranks (HdrQuantOk.oq_vals (HdrQuantOk.model_obs_q lo hi s vs ranks))) = true.
+Proof. exact HdrOracleProofs.c13_quant_sound. Qed.
+Print Assumptions C13_oracle_quant_sound.
+
+(* 10. the integer content of the oracle's Mean clause: |mean_num - S| <= T *)
+Theorem C13_oracle_mean_num : forall lo hi s vs,
+  valid_config lo hi s -> in_range hi vs ->
+  let c := config_of lo hi s in
+  Z.abs (mean_num (hist_of lo hi s vs) - HdrQuantOk.zsum vs)
+  <= HdrQuantOk.zsum (map (fun v => size_of_range c v / 2) vs).
+Proof. exact HdrOracleProofs.c13_mean_num_bound. Qed.
+Print Assumptions C13_oracle_mean_num.
+
+(* 11. TotalCount, Min, Max exactly (reflected form of theorem 3); the Mean clause for
+       EVERY float mm * 2^me within relative error 2^-52 of the model's exact mean
+       mean_num / total (hypothesis scaled to integers, k = max 0 (-me)).  Not covered:
+       that Go's float64 division yields such a float. *)
+Theorem C13_oracle_stats_sound : forall lo hi s vs mm me,
+  valid_config lo hi s -> in_range hi vs -> vs <> [] ->
+  let o := HdrQuantOk.model_obs_q lo hi s vs [] in
+  let k := if me <? 0 then - me else 0 in
+  2 ^ 52 * Z.abs (mm * 2 ^ (me + k) * HdrQuantOk.oq_total o - HdrQuantOk.oq_mean_num o * 2 ^ k)
+    <= HdrQuantOk.oq_mean_num o * 2 ^ k ->
+  HdrQuantOk.c13_ok_stats lo hi s vs (HdrQuantOk.oq_total o) (HdrQuantOk.oq_min o)
+    (HdrQuantOk.oq_max o) mm me = true.
+Proof. exact HdrOracleProofs.c13_stats_sound. Qed.
+Print Assumptions C13_oracle_stats_sound.
+
+(* 12. merge: a target and ANY chain of sources of ANY valid geometries.  The oracle's
+       clauses "dropped = exactly the number of source values whose representative the
+       target cannot index" and "counts = direct histogramming of the representatives"
+       are stronger than theorems 4 and 5 (which speak about one merge of two fresh
+       histograms and, for different geometries, only about conservation); they are
+       proved here from the model (HdrOracleProofs.merge_any, merge_chain). *)
+Definition op_ok (o : HdrQuantOk.operand) : Prop :=
+  valid_config (HdrQuantOk.op_lo o) (HdrQuantOk.op_hi o) (HdrQuantOk.op_s o) /\
+  in_range (HdrQuantOk.op_hi o) (HdrQuantOk.op_vs o).
+
+Theorem C13_oracle_merge_sound : forall t srcs,
+  op_ok t -> Forall op_ok srcs ->
+  let '(ds, total, counts) := HdrQuantOk.model_merge t srcs in
+  HdrQuantOk.c13_ok_merge t srcs ds total counts = true.
+Proof. exact HdrOracleProofs.c13_merge_sound. Qed.
+Print Assumptions C13_oracle_merge_sound.
+
+(* 13. windowed histogram (reflected form of theorem 6; the oracle's reference keeps
+       every window newest value first, a permutation of theorem 6's reference) *)
+Theorem C13_oracle_window_sound : forall n lo hi s ops,
+  (1 <= n)%nat -> valid_config lo hi s ->
+  Forall (fun o => match o with HdrQuantOk.WRec v => 0 <= v <= hi | HdrQuantOk.WRot => True end) ops ->
+  let '(total, counts) := HdrQuantOk.model_window n lo hi s ops in
+  HdrQuantOk.c13_ok_window n lo hi s ops total counts = true.
+Proof. exact HdrOracleProofs.c13_window_sound. Qed.
+Print Assumptions C13_oracle_window_sound.
+
+(* 14. Export / Import (reflected form of theorem 7); the driver applies the same
+       observation to the BSON and JSON round trips, which the model does not have *)
+Theorem C13_oracle_snapshot_sound : forall lo hi s vs n,
+  valid_config lo hi s -> in_range hi vs ->
+  HdrQuantOk.c13_ok_snapshot vs (repeat (HdrQuantOk.model_snapshot lo hi s vs) n) = true.
+Proof. exact HdrOracleProofs.c13_snapshot_sound. Qed.
+Print Assumptions C13_oracle_snapshot_sound.
